@@ -206,4 +206,7 @@ def or_form(prog: Program) -> RuleResult:
 
 def run(prog: Program, tier: str) -> List[RuleResult]:
     _cache.clear()
-    return [ep_bound(prog), ep_gate(prog), or_form(prog)]
+    from .c01 import ep_neg
+
+    # negation: a wrong dual loses satisfying assignments as easily as it admits wrong ones
+    return [ep_bound(prog), ep_gate(prog), or_form(prog), ep_neg(prog)]
